@@ -43,7 +43,9 @@ CONSTANTS Classes,            \* names of the state classes to explore
           FixLastCommitNil,   \* addVote returns ErrVoteHeightMismatch when cs.LastCommit = nil
           FixPartIndexNeg,    \* PartSet.AddPart rejects part.Index < 0
           FixTotalNeg,        \* defaultSetProposal rejects BlockPartsHeader.Total < 0
-          FixRecoverAuth      \* the recover path of defaultSetProposal requires a validator's signature
+          FixTotalMax,        \* ... and a Total above what the largest allowed block can have
+          FixRecoverAuth,     \* the recover path of defaultSetProposal requires a validator's signature
+          FixBlockComponents  \* a decoded block with a missing header / data / last commit, or evidence with missing members, is rejected
 
 NEG  == -9
 MAXI == 99
@@ -82,10 +84,11 @@ ClassTab ==
       [] c = "h1-precommitwait" -> Cls(1, 0, StPrecommitWait, FALSE, {}, TRUE, TRUE, {0, 1, 2}, TRUE, FALSE,
                                        AllOf(0, Prevote, Vals, "block") \cup
                                        {<<0, Precommit, 0, "block">>, <<0, Precommit, 1, "block">>, <<0, Precommit, 2, "nil">>})
+      \* (entering Commit from Propose the node first precommits nil itself: enterPrecommit without a polka)
       [] c = "h1-commit"        -> Cls(1, 0, StCommit, FALSE, {}, FALSE, TRUE, {}, FALSE, FALSE,
-                                       AllOf(0, Precommit, {1, 2, 3}, "block"))
+                                       AllOf(0, Precommit, {1, 2, 3}, "block") \cup {<<0, Precommit, 0, "nil">>})
       [] c = "h1-r1-propose"    -> Cls(1, 1, StPropose, FALSE, {}, FALSE, FALSE, {}, FALSE, FALSE,
-                                       AllOf(0, Prevote, {0, 1, 2}, "nil") \cup AllOf(0, Precommit, {0, 1, 2}, "nil"))
+                                       AllOf(0, Prevote, {0, 1, 2}, "nil") \cup AllOf(0, Precommit, Vals, "nil"))
       [] c = "h2-newheight"     -> Cls(2, 0, StNewHeight, TRUE, {0, 1, 2}, FALSE, FALSE, {}, FALSE, FALSE, {})
       [] c = "h2-propose"       -> Cls(2, 0, StPropose, TRUE, {0, 1, 2}, FALSE, FALSE, {}, FALSE, FALSE, {})
       [] c = "h1-stalled"       -> Cls(1, 0, StPropose, FALSE, {}, FALSE, FALSE, {}, FALSE, TRUE, {}) ]
@@ -174,6 +177,12 @@ Dev2(base, dom, key) ==
          <<a, b>> \in {p \in FV \X FV : p[1][1] # p[2][1] /\ (Pairs = "all" \/ p[1][1] \in key)}}
 Dev(base, dom, key) == {base} \cup Dev1(base, dom) \cup Dev2(base, dom, key)
 
+\* A Byzantine proposer's block: the proposal (signed as sig says) followed by all parts (valid proofs) of a
+\* block with missing components; the node assembles it in addProposalBlockPart.
+ByzContents == {"valid", "nohdr", "nodata", "nolastcommit", "emptylastcommit", "fve-noproposer", "fve-twice",
+                "dve-novotes", "dve-nopubkey", "garbage"}
+ByzMsgs == {[t |-> "byzblock", ch |-> "data", content |-> c, sig |-> sg] : c \in ByzContents, sg \in {"proposer", "other", "bad"}}
+
 Channels == {"state", "data", "vote", "bits", "unknown"}
 \* every base message on every wrong channel
 Misrouted(bases) == {[b EXCEPT !.ch = ch] : <<b, ch>> \in {p \in bases \X Channels : p[1].ch # p[2]}}
@@ -188,7 +197,7 @@ Msgs ==
       \cup Dev(PartBase, PartDom, PartKey)
       \cup Dev(NrsBase, NrsDom, {"h", "r"}) \cup Dev(CsBase, CsDom, {"h", "hdr", "ba"}) \cup Dev(HvBase, HvDom, {"h", "idx"})
       \cup Maj23Msgs \cup Dev(VbBase, VbDom, {"h", "ba"}) \cup Dev(PolBase, PolDom, {"h", "polr", "ba"})
-      \cup Dev(HbBase, HbDom, {"nilc"})
+      \cup Dev(HbBase, HbDom, {"nilc"}) \cup ByzMsgs
       \cup Misrouted({VoteBase(Prevote), PropBase, PartBase, NrsBase, CsBase, HvBase, MjBase, VbBase, PolBase, HbBase})
 
 (* ---- (2) the declarative side ---------------------------------------------- *)
@@ -224,13 +233,17 @@ MayAffectPart(m) ==
 MayAffectMaj23(m) == m.h = C.h /\ m.typ \in {Prevote, Precommit} /\ Tracked(m.r) /\ rs.claim = <<>>
 
 OnOwnChannel(m) == \/ m.t \in {"nrs", "commitstep", "hasvote", "maj23", "heartbeat"} /\ m.ch = "state"
-                   \/ m.t \in {"proposal", "part", "pol"} /\ m.ch = "data"
+                   \/ m.t \in {"proposal", "part", "pol", "byzblock"} /\ m.ch = "data"
                    \/ m.t = "vote" /\ m.ch = "vote"
                    \/ m.t = "bits" /\ m.ch = "bits"
+
+\* the proposer's proposal is accepted and its parts are collected whatever they turn out to contain
+MayAffectByz(m) == ~C.prop /\ C.step < StCommit /\ m.sig = "proposer"
 
 MayAffect(m) ==
   /\ OnOwnChannel(m)
   /\ CASE m.t = "vote"     -> MayAffectVote(m)
+       [] m.t = "byzblock" -> MayAffectByz(m)
        [] m.t = "proposal" -> MayAffectProposal(m)
        [] m.t = "part"     -> MayAffectPart(m)
        [] m.t = "maj23"    -> MayAffectMaj23(m)
@@ -241,10 +254,11 @@ MayAffect(m) ==
 \* "recover" (recover mode entered), "part" (part added), "vote" (vote added), "lastcommit" (added to
 \* cs.LastCommit), "conflict" (a validator's second, different vote: evidence, the vote sets keep the first),
 \* "alloc" (catch-up round allocated, vote rejected), "alloc+vote", "claim", "panic".
-\* fx = which of the four repairs the modelled code contains.
+\* fx = which of the repairs the modelled code contains.
 None == "none"
-AsIs  == [lc |-> FALSE, idx |-> FALSE, tot |-> FALSE, rec |-> FALSE]
-Fixed == [lc |-> FixLastCommitNil, idx |-> FixPartIndexNeg, tot |-> FixTotalNeg, rec |-> FixRecoverAuth]
+AsIs  == [lc |-> FALSE, idx |-> FALSE, tot |-> FALSE, max |-> FALSE, rec |-> FALSE, blk |-> FALSE]
+Fixed == [lc |-> FixLastCommitNil, idx |-> FixPartIndexNeg, tot |-> FixTotalNeg, max |-> FixTotalMax, rec |-> FixRecoverAuth,
+          blk |-> FixBlockComponents]
 
 \* types.VoteSet.addVote (the vote set exists and is for the vote's height/round/type)
 VoteSetAdd(m, heldValue) ==
@@ -287,7 +301,8 @@ SetProposal(m, fx) ==
   ELSE IF ~PolOK(m) THEN None                                \* ErrInvalidProposalPOLRound
   ELSE IF m.sig # "proposer" THEN None                       \* ErrInvalidProposalSignature
   ELSE IF m.total < 0 THEN (IF fx.tot THEN None ELSE "panic")  \* NewPartSetFromHeader: make([]*Part, Total)
-  ELSE "proposal"
+  ELSE IF m.total = MAXI /\ fx.max THEN None                 \* (repaired code only) more parts than the largest block has
+  ELSE "proposal"                                            \* (a huge Total allocates that many entries: see the allocation phase)
 
 \* types.PartSet.AddPart
 AddPart(m, fx) ==
@@ -303,6 +318,17 @@ AddBlockPart(m, fx) ==
   IF m.h # C.h THEN None
   ELSE IF ~C.exp THEN (IF m.nilc THEN "panic" ELSE None)     \* the log line reads part.Index
   ELSE AddPart(m, fx)
+
+\* the proposal and then every part of a Byzantine proposer's block: defaultSetProposal, addProposalBlockPart
+\* until the set is complete, DecodeReader into cs.ProposalBlock, enterPrevote -> defaultDoPrevote -> checkBlockEvidence
+ByzBlock(m, fx) ==
+  IF SetProposal([PropBase EXCEPT !.sig = m.sig], fx) # "proposal" THEN None   \* no proposal: the parts are not expected
+  ELSE IF m.content = "garbage" THEN "proposal"                  \* decode error: cs.ProposalBlock stays nil
+  ELSE IF fx.blk /\ m.content \in {"nohdr", "nodata", "nolastcommit"} THEN "proposal"   \* (repaired code) block refused
+  ELSE IF m.content = "nohdr" THEN "panic"                       \* cs.ProposalBlock.Recover with a nil *Header
+  ELSE IF C.h > 1 /\ m.content \in {"nolastcommit", "emptylastcommit", "fve-noproposer", "dve-novotes", "dve-nopubkey"}
+       THEN (IF fx.blk THEN "block" ELSE "panic")                \* checkFaultValEvidence / checkDuplicateVoteEvidence dereference them
+  ELSE "block"                                                   \* block complete: enterPrevote (for it, or nil if it is invalid)
 
 HandleMsg(m, fx) == CASE m.t = "proposal" -> SetProposal(m, fx)
                       [] m.t = "part"     -> AddBlockPart(m, fx)
@@ -327,7 +353,8 @@ Maj23Effect(m) ==
 
 \* the whole path
 Effect(m, fx) ==
-  IF m.t = "maj23" THEN Maj23Effect(m)
+  IF m.t = "byzblock" THEN (IF OnOwnChannel(m) THEN ByzBlock(m, fx) ELSE None)
+  ELSE IF m.t = "maj23" THEN Maj23Effect(m)
   ELSE IF Forwarded(m) = "no" THEN None
   ELSE HandleMsg(m, fx)
 
@@ -379,6 +406,9 @@ DirectOnlyNil == [][ (last'.op = "deliver" /\ last'.direct = "panic" /\ last'.ef
 
 (* ---- export for the harness --------------------------------------------------------- *)
 Proj(c, r) == [cls |-> c, q |-> r.q, claim |-> r.claim, changed |-> r.changed]
-Edge == PrintT(ToJson([from |-> Proj(cls, rs), act |-> last', to |-> Proj(cls', rs'), run |-> running']))
+\* cf: the class record, for the harness to check that the node it built is the one described here
+ClassFacts == [h |-> C.h, r |-> C.r, step |-> C.step, lc |-> C.lc, prop |-> C.prop, exp |-> C.exp,
+               nhave |-> Cardinality(C.have), blk |-> C.blk, stalled |-> C.stalled]
+Edge == PrintT(ToJson([from |-> Proj(cls, rs), act |-> last', to |-> Proj(cls', rs'), run |-> running', cf |-> ClassFacts]))
 View == <<cls, rs, running>>
 =============================================================================
